@@ -83,6 +83,11 @@ func runOrder(seed int64, n int, out *bufio.Writer, thorough bool) *orderStats {
 			c = pool[hsel].GetHash()
 		}
 		e := &entry.Entry{Hash: c, Clock: entry.NewLamportClock(id, t), LogID: "X", V: 2}
+		// a third of the entries name an entry of the pool as predecessor (whatever its clock: the
+		// orderings are functions of clock and hash only)
+		if len(pool) > 0 && r.Intn(3) == 0 {
+			e.Next = []cid.Cid{pool[r.Intn(len(pool))].GetHash()}
+		}
 		return e
 	}
 	alias := map[iface.IPFSLogEntry]string{}
@@ -115,6 +120,13 @@ func runOrder(seed int64, n int, out *bufio.Writer, thorough bool) *orderStats {
 	for _, t := range gridTimes {
 		for _, id := range gridIDs {
 			pool = append(pool, mk(t, id, -1, nil))
+		}
+	}
+	// parent links inside the grid: every third entry names another grid entry (often one with the same
+	// clock time and another id) as its predecessor
+	for i, e := range pool {
+		if i%3 == 1 {
+			e.(*entry.Entry).Next = []cid.Cid{pool[(i*7+len(gridIDs)+3)%len(pool)].GetHash(), pool[(i+1)%len(pool)].GetHash()}
 		}
 	}
 	for i, a := range pool {
@@ -153,7 +165,7 @@ func runOrder(seed int64, n int, out *bufio.Writer, thorough bool) *orderStats {
 				continue
 			}
 			used[key] = true
-			xs = append(xs, mk(t, id, -1, nil))
+			xs = append(xs, mk(t, id, -1, xs))
 		}
 		kind := []string{"lww", "fww", "hash", "clock"}[r.Intn(4)]
 		rev := r.Intn(2)
